@@ -199,7 +199,49 @@ def case_invariance(T, cfg):
     T.eq('similarity unchanged', got, base, key=key)
 
 
-CASES = dict(rank=case_rank, pointwise=case_pointwise, minmax=case_minmax, geotop=case_geotop, invariance=case_invariance)
+def case_geodesic(T, cfg):
+    """shortest-path lengths in the min-max graph without its maximal edges (zero weights are no edges, as networkx
+    builds the graph); oracle: minimum over all simple paths, enumerated explicitly"""
+    import sys
+    import rsatoolbox.rdm
+    trm = sys.modules['rsatoolbox.rdm.transform']
+    from harness.C09 import pair_index
+    obj, D = _rdms(T, cfg)
+    res = trm.geodesic_transform(obj)
+    key = 'C17:geodesic'
+    _meta(T, res, obj, 'geodesic transformed squared euclidean', key)
+    n = cfg['n_cond']
+    for r in range(cfg['n_rdm']):
+        row = list(D[r])
+        lo, hi = row[0], row[0]
+        for x in row[1:]:
+            if bool(x < lo):
+                lo = x
+            if bool(x > hi):
+                hi = x
+        T.assume(hi > lo)
+        w = {}
+        for (i, j) in triu_pairs(n):
+            x = row[pair_index(n, i, j)]
+            if bool(x == lo) or bool(x == hi):
+                continue                      # weight 0: no edge; weight 1: maximal edge, removed
+            w[(i, j)] = w[(j, i)] = (x - lo) / (hi - lo)
+        want = []
+        for (i, j) in triu_pairs(n):
+            best = None
+            others = [k for k in range(n) if k not in (i, j)]
+            for m in range(len(others) + 1):
+                for mid in itertools.permutations(others, m):
+                    path = (i,) + mid + (j,)
+                    if all((path[a], path[a + 1]) in w for a in range(len(path) - 1)):
+                        length = sum((w[(path[a], path[a + 1])] for a in range(1, len(path) - 1)), w[(path[0], path[1])])
+                        if best is None or bool(length < best):
+                            best = length
+            want.append(np.inf if best is None else best)
+        T.eq(f'geodesic[{r}]', res.dissimilarities[r], want, key=key)
+
+
+CASES = dict(geodesic=case_geodesic, rank=case_rank, pointwise=case_pointwise, minmax=case_minmax, geotop=case_geotop, invariance=case_invariance)
 MAX_PATHS = dict(quick=3000, thorough=30000)
 
 
@@ -224,6 +266,9 @@ def configs(tier):
         out.append(dict(case='geotop', n_cond=3, n_rdm=1, low=low, up=up))
     if not quick:
         out.append(dict(case='geotop', n_cond=3, n_rdm=2, low=0.25, up=0.75))
+    out.append(dict(case='geodesic', n_cond=3, n_rdm=1))
+    if not quick:
+        out.append(dict(case='geodesic', n_cond=3, n_rdm=2))
     for method in ['spearman', 'rho-a', 'tau-a', 'kendall']:
         for f in ['affine', 'sqrt', 'cube'] + ([] if quick else ['rank']):
             out.append(dict(case='invariance', method=method, f=f, n_cond=3, n_rdm=1))
